@@ -97,14 +97,17 @@ def earlierSame (k : KeyVal) (earlier : List (Option KeyVal × Span)) (sp : Opti
   earlier.any fun (k', s) => (match k' with | some k' => sameKey k' k | none => false) &&
     (match sp with | some sp => s == sp | none => true)
 
+/-- `g` reports the field `(k, s)` and points back to an earlier field with the same key value -/
+def dupHere (earlier : List (Option KeyVal × Span)) (k : Option KeyVal) (s : Span) (g : Diag) : Bool :=
+  match k with
+  | some k => g.primary == s && (match g.secondary with
+      | [o] => earlierSame k earlier (some o)
+      | _ => false)
+  | none => false
+
 def dupPairs : List (Option KeyVal × Span) → List (Option KeyVal × Span) → Diag → Bool
   | _, [], _ => false
-  | earlier, (k, s) :: rest, g =>
-    ((match k with
-      | some k => g.primary == s && (match g.secondary with
-          | [o] => earlierSame k earlier (some o)
-          | _ => false)
-      | none => false)) || dupPairs (earlier ++ [(k, s)]) rest g
+  | earlier, (k, s) :: rest, g => dupHere earlier k s g || dupPairs (earlier ++ [(k, s)]) rest g
 
 /-- "Checks for duplicate keys being defined inside of tables": the reported field and the field it
 points back to have constant keys denoting the same value -/
